@@ -36,6 +36,10 @@ CLAIMED = {
   "text": "Bounded symbolic model checking of the real groupChain (AddGroup/save/remove/lookups and the restart loading sequence) over an in-memory store: for every history of up to 3 (thorough 5) add / bad-add / duplicate / remove-last / restart operations the last group is linked to genesis, Count equals the list length, the height index returns exactly the listed groups and nothing at or above the count, and every group is retrievable by id.",
   "note": "Trusted: gosym and its models (encoding/json by contract), z3. Mid-operation crash points are outside (the property quantifies restarts after operations).",
  },
+ "C20": {
+  "text": "Bounded symbolic model checking of the real MinerManager/RefundManager on a real AccountDB: for one apply / add-stake / refund (arbitrary uint64 amount) / double-refund operation from each small registry pre-state, lookup by id, by id+kind and by account agree, an account controls at most one miner, stake = applied + added - refunded, locked + scheduled + liquid tokens are constant, and a rejected operation changes nothing.",
+  "note": "Trusted: gosym and its models (encoding/json by contract, LevelDB cache as a map), z3. Per-operation lemma; histories by induction. Amounts other than the refund amount are enumerated choices.",
+ },
 }
 PENDING = "check not built yet in this session (planned, see DESIGN.md section 5)"
 NA = {
